@@ -18,9 +18,10 @@
 //     oracle takes the exact central angle θ and the interval [θ·b, θ·a] (b = 6356752.3 m,
 //     a = 6378137 m; ±0.17 % around the mean sphere) widened by 0.3 m: the encoding moves a
 //     point by ≤ 1.1 cm, and Haversin forms h from 1-cos(Δ), whose absolute rounding error
-//     (≈ 1.7e-16) turns into 2R·√1.7e-16 ≈ 0.17 m of distance when the true distance is near
-//     zero or near half the circumference (the run measures the worst excess of geo.Haversin
-//     over the interval, 0.16 m, and records it; an excess above the band is a violation).
+//     (≈ 2e-16) turns into 2R·√2e-16 ≈ 0.2 m of distance when the true distance is near zero
+//     or near half the circumference (the run measures the worst excess of geo.Haversin over
+//     the interval — 0.16 m quick, 0.20 m thorough — and records it; an excess above the band
+//     is itself reported as a violation).
 //   - Polygons: the documentation does not say whether edges are straight in the lon/lat
 //     plane or great-circle arcs; a point is asserted only when both readings agree (it is
 //     outside every sliver between an edge's chord and its geodesic, and farther than the box
@@ -819,9 +820,9 @@ func polygonsOver(r *mc.Run, lons, lats []float64, triLons, triLats []float64) [
 
 // skipSlow: without FieldDictContains upsidedown opens a term reader per candidate cell (tens of
 // milliseconds for a large box); it runs the same searcher code as scorch without a plugin, so
-// the quick tier gives it every third shape of the grid phase (thorough: all).
+// the quick tier gives it a fixed quarter of the shapes of the grid phase (thorough: all).
 func skipSlow(r *mc.Run, e engine, i int) bool {
-	return r.Quick() && e.name == "upsidedown" && (uint32(i)*2654435761>>8)%3 != 0 // a fixed third, not aligned with the loop nest
+	return r.Quick() && e.name == "upsidedown" && (uint32(i)*2654435761>>8)%4 != 0 // a fixed quarter, not aligned with the loop nest
 }
 
 func phaseGrid(r *mc.Run, c *checker, engs []engine) (gridPts []pt) {
@@ -974,8 +975,8 @@ func phaseCentres(r *mc.Run, c *checker, engs []engine) (edgePts []pt) {
 	lat := lattice()
 	var mu sync.Mutex
 	r.Sample(map[string]any{"kind": "circle", "centre": pt{179.99, 89.99}, "radius": "100km", "feature": "pole",
-		"must_return": "every lattice point with |lat| ≥ 89.99 on the northern side incl. (−135, 90); edge points 0.5 m inside on the equatorial-radius sphere",
-		"must_not_return": "edge points 0.5 m outside on the polar-radius sphere", "either": "points whose distance interval [θ·b, θ·a] ± 0.3 m contains the radius"})
+		"must_return":     "every lattice point with |lat| ≥ 89.99 on the northern side incl. (−135, 90); edge points 0.6 m inside on the equatorial-radius sphere",
+		"must_not_return": "edge points 0.6 m outside on the polar-radius sphere", "either": "points whose distance interval [θ·b, θ·a] ± 0.3 m contains the radius"})
 	r.Sample(map[string]any{"kind": "distance-sort", "origin": pt{-180, 0}, "rule": "a hit may not precede another when its distance interval lies entirely above the other's"})
 	r.ParFor(len(centres), 0, func(ci int) {
 		ctr := centres[ci]
@@ -1168,7 +1169,7 @@ func (c *checker) sortCheck(eng string, idx bleve.Index, origin pt, desc bool, b
 func Run(r *mc.Run) {
 	r.Rule("E2: documents = 77-point lattice (lon ±180, ±179.99, ±135, ±90, ±45, 0 × lat ±90, ±89.99, ±45, 0) + the grid of points at 0, ±1, ±20, ±1000 ×1e-7° (1e-7° ≈ one cell; thorough adds ±5, ±11, ±13, ±300000) around every box / polygon edge coordinate + points on 8 (thorough 16) bearings at radius ± {0, 2 cm} (band) and radius ∓ {0.6 m, 50 m, …} (clear of the band on the largest / smallest sphere) around every circle + multi-point documents (2–3 points) + one document without a point; " +
 		"shapes = every bounding box (top-left, bottom-right) over a coarser lattice with one value per axis moved off the Morton cell grid (45.3, -44.6), incl. date-line-crossing (left > right), pole-touching and zero-width/height boxes; circles = every lattice centre × radii 1 m, 1 km, 100 km, 5 000 km, 10 000 km (thorough: 10 radii up to 20 000 km); polygons = rectangles (4 corners, and with intermediate vertices on the parallels) and all triangles over a sub-lattice, rotating through both windings and open / closed rings; " +
-		"engines = scorch, scorch with spatialPlugin=s2, upsidedown (quick tier: upsidedown gets a fixed third of the boxes / polygons and every fourth centre, and the plugin-less engines get the two largest radii from every eighth centre — same searcher code as plugin-less scorch, ~10^5 dictionary probes per such query; thorough: everything on every engine); " +
+		"engines = scorch, scorch with spatialPlugin=s2, upsidedown (quick tier: upsidedown gets a fixed quarter of the boxes / polygons and every fourth centre, and the plugin-less engines get the two largest radii from every eighth centre — same searcher code as plugin-less scorch, ~10^5 dictionary probes per such query; thorough: everything on every engine); " +
 		"plus distance sort (asc, desc, and of a circle query's hits) from every lattice origin, Morton hash round trip of every point used, and geo.Haversin from every lattice origin to every point against the sphere interval. " +
 		"Oracle: exact spherical geometry, three-valued (must be returned / must not / either within the band: 1.2e-6° for boxes and polygons, [θ·b, θ·a] ± 0.3 m for distances; polygons additionally only where planar and great-circle edges agree). An outcome is (shape kind, structural feature, bucketed hit count) resp. (sort kind, hit bucket, inversion seen).")
 	r.Assume(
